@@ -20,12 +20,12 @@ require (
 )
 
 replace (
-	github.com/redis/rueidis => ../../repo
-	github.com/redis/rueidis/mock => ../../repo/mock
-	github.com/redis/rueidis/om => ../../repo/om
-	github.com/redis/rueidis/rueidisaside => ../../repo/rueidisaside
-	github.com/redis/rueidis/rueidiscompat => ../../repo/rueidiscompat
-	github.com/redis/rueidis/rueidishook => ../../repo/rueidishook
-	github.com/redis/rueidis/rueidislimiter => ../../repo/rueidislimiter
-	github.com/redis/rueidis/rueidisprob => ../../repo/rueidisprob
+	github.com/redis/rueidis => /repo
+	github.com/redis/rueidis/mock => /repo/mock
+	github.com/redis/rueidis/om => /repo/om
+	github.com/redis/rueidis/rueidisaside => /repo/rueidisaside
+	github.com/redis/rueidis/rueidiscompat => /repo/rueidiscompat
+	github.com/redis/rueidis/rueidishook => /repo/rueidishook
+	github.com/redis/rueidis/rueidislimiter => /repo/rueidislimiter
+	github.com/redis/rueidis/rueidisprob => /repo/rueidisprob
 )
